@@ -41,9 +41,11 @@ type Obligation struct {
 type Config struct {
 	MaxPaths     int
 	MaxDepth     int
+	UnitSec      int // wall-clock limit per unit
 	QueryMs      int
 	FeasMs       int // time limit of feasibility checks (unknown counts as feasible)
 	MaxUnroll    int  // default bound for loops without annotation
+	ForceBounded int  // >0: treat every loop as bounded N (bounded stand-in mode)
 	Safety       bool // generate safety obligations
 	FrameCheck   bool // generate frame obligations (stores into pre-existing memory)
 	Z3           string
@@ -54,7 +56,7 @@ type Config struct {
 }
 
 func DefaultConfig() Config {
-	return Config{MaxPaths: 4000, MaxDepth: 14, QueryMs: 5000, FeasMs: 300, MaxUnroll: 3, Safety: true, Z3: "z3-new", WantModel: true, InlineAcross: true}
+	return Config{MaxPaths: 4000, MaxDepth: 14, QueryMs: 5000, FeasMs: 300, UnitSec: 120, MaxUnroll: 3, Safety: true, Z3: "z3-new", WantModel: true, InlineAcross: true}
 }
 
 // Unit is the verification of one target function (or lemma).
@@ -98,6 +100,10 @@ type Unit struct {
 	ctxBase  *Term
 	NAssumeCalls int
 	inInit   bool
+	cellByID map[int]*Cell
+	symIdxCells map[int]*ListObj
+	HavocLoops map[string]int
+	HavocAll int
 	Vacuous  []string
 	TrivialSafety int
 	initCells int
@@ -129,6 +135,9 @@ func NewUnit(p *Program, target *ssa.Function, cfg Config) *Unit {
 	u.loops = map[*ssa.Function]*loopInfo{}
 	u.uf = map[string]bool{}
 	u.litArr = map[string]*Term{}
+	u.cellByID = map[int]*Cell{}
+	u.symIdxCells = map[int]*ListObj{}
+	u.HavocLoops = map[string]int{}
 	u.S = NewSolver(cfg.Z3, cfg.QueryMs)
 	u.start = time.Now()
 	return u
@@ -199,12 +208,7 @@ func (u *Unit) name(t *Term, prefix string) *Term {
 	return c
 }
 
-// defArr introduces a named array equal to (lambda (v) body).
-func (u *Unit) defArr(prefix string, v string, body *Term) *Term {
-	n := u.freshName(prefix)
-	u.S.DefineArr(n, v, body)
-	return Const(n, SArr)
-}
+
 
 // byteFact records 0 <= b <= 255 for a byte read from an array.
 func (u *Unit) byteFact(b *Term) {
